@@ -696,14 +696,22 @@ impl C07 {
         // struct with a polymorphic base is not a fixed point. Excluded by construction (counted),
         // unless this case is the replay of that finding.
         let poly = g.polymorphic();
+        // (the same holds for the destructor fact: an opaque struct whose base has a destructor)
+        let mut dtor_any = vec![false; n];
+        for i in 0..n {
+            dtor_any[i] = g.nodes[i].dtor || g.nodes[i].bases.iter().any(|b| dtor_any[*b]) || g.nodes[i].tbases.iter().any(|(b, _)| dtor_any[*b]);
+        }
         let mut kept_known_opaque = false;
+        let mut kept_known_dtor = false;
         for i in opaque.iter().filter(|i| classlike.contains(i)) {
-            let has_poly_base = g.nodes[*i].bases.iter().any(|b| poly[*b]);
-            if has_poly_base && !*keep_known {
+            let has_poly_base = g.nodes[*i].bases.iter().any(|b| poly[*b]) || g.nodes[*i].tbases.iter().any(|(b, _)| poly[*b]);
+            let has_dtor_base = g.nodes[*i].bases.iter().any(|b| dtor_any[*b]) || g.nodes[*i].tbases.iter().any(|(b, _)| dtor_any[*b]);
+            if (has_poly_base || has_dtor_base) && !*keep_known {
                 out.excluded_known += 1;
                 continue;
             }
             kept_known_opaque |= has_poly_base;
+            kept_known_dtor |= has_dtor_base;
             flags.push("--opaque-type".into());
             flags.push(nname(*i));
         }
@@ -711,6 +719,8 @@ impl C07 {
             let a = analysis_of(l);
             if kept_known_opaque && a.starts_with("HasVtableAnalysis/") {
                 "HasVtableAnalysis/opaque-polymorphic-base".to_string()
+            } else if kept_known_dtor && a.starts_with("HasDestructorAnalysis/") {
+                "HasDestructorAnalysis/opaque-base-with-destructor".to_string()
             } else {
                 a
             }
@@ -771,7 +781,7 @@ impl C07 {
                     out.fail(format!("hook/unstable-consulted/{}", sig_of(l)), format!("order {order:?} work-list seed {s}: {l}\n{text}"));
                 }
                 if r.result != base.result {
-                    out.fail("schedule/output-differs", format!("order {order:?}: work-list seed {s} changes the output: {}\n{text}", first_diff(&base.result, &r.result)));
+                    out.fail(if kept_known_dtor || kept_known_opaque { "schedule/output-differs/opaque-struct-base-fact" } else { "schedule/output-differs" }, format!("order {order:?}: work-list seed {s} changes the output: {}\n{text}", first_diff(&base.result, &r.result)));
                 }
             }
             match facts(btext) {
